@@ -12,7 +12,7 @@ from mc.run import Stats, explore
 
 ASSUME = [
     "UTC projects only; project durations in d/w (month/year durations are not shift-invariant windows and are not generated)",
-    "dates moved: project start, task start/end pins, resource leaves/vacations/bookings, project vacations and leaves",
+    "dates moved: project start, task start/end pins, resource leaves/vacations/bookings, project vacations and leaves (also written latest-first)",
     "starts {2024-12-02, 2024-12-23, 2025-02-24, 2026-12-14, 2027-02-22, 2024-02-19 (leap day inside the window)} and, for bases with limits, {2027-01-01 (ISO 2026-W53), 2028-01-01 (ISO 2027-W52), 2025-12-10 (window ends 12-31)}; offsets in weeks listed in coverage",
 ]
 STARTS = ["2024-12-02", "2024-12-23", "2025-02-24", "2026-12-14", "2027-02-22", "2024-02-19",
@@ -41,6 +41,13 @@ def base_spec(b, start):
     elif b["lv"] == "proj":
         spec["vacations"] = [(D(start, 1), D(start, 3))]
         spec["gleaves"] = [("holiday", D(start, 9), None)]
+    elif b["lv"] == "proj-rev":
+        # the same kind of days off, the statements written latest-first (across a year end for the December starts)
+        spec["vacations"] = [(D(start, 9), D(start, 11)), (D(start, 1), D(start, 3))]
+        spec["gleaves"] = [("holiday", D(start, 15), None), ("holiday", D(start, 4), None)]
+    elif b["lv"] == "res-rev":
+        r1["leaves"] = [{"k": "vacation", "a": D(start, 9), "b": D(start, 11)}, {"k": "leaves", "type": "annual", "a": D(start, 2)},
+                        {"k": "vacation", "a": D(start, 15)}, {"k": "leaves", "type": "sick", "a": D(start, 4)}]
     elif b["lv"] == "longproj":
         # a five-week shutdown: it contains a whole calendar month at some week offsets and not at others
         spec["vacations"] = [(D(start, 35), D(start, 70))]
@@ -75,8 +82,10 @@ def base_spec(b, start):
 def bases(tier):
     out = []
     for cal in ("default", "night", "split"):
-        for lv in ("none", "res", "proj"):
+        for lv in ("none", "res", "proj", "proj-rev", "res-rev"):
             for lim in ("none", "daily", "weekly", "gweekly"):   # gweekly: the limit sits on the group above both resources
+                if lv.endswith("-rev") and lim in ("daily", "gweekly"):
+                    continue
                 for mode in ("asap", "alap-end"):
                     for pin in (False, True):
                         out.append({"cal": cal, "lv": lv, "lim": lim, "mode": mode, "pin": pin, "dur": "3w"})
